@@ -48,6 +48,7 @@ type step struct {
 	S    int               `json:"s"`
 	Res  int               `json:"res"`
 	View map[string]data   `json:"view"`
+	CIn  map[string]bool   `json:"cin"`
 	Sn   []map[string]data `json:"sn"`
 }
 
@@ -336,6 +337,35 @@ func (r *runner) run(steps []step) int {
 					key = "ws:reset:restores"
 				}
 				r.viol(key, "%s: world state shows account %s as %+v, spec says %+v", at, a, got, s.View[a])
+			}
+		}
+		// ... and so does the mutable account object of every cached account (AccountState getters read the object's own
+		// fields, not a snapshot): balance, storage, contract and blocked flag straight after every call, in particular
+		// after Reset and before any new write
+		for _, a := range r.accts {
+			if !s.CIn[a] {
+				continue
+			}
+			as := r.ws.GetAccountState(r.w.acct(a)) // cached: returns the existing object
+			want := s.View[a]
+			if b := as.GetBalance(); b == nil || !b.IsInt64() || int(b.Int64()) != want.Bal {
+				r.viol("ws:state:balance", "%s: account object of %s has balance %v, spec says %d", at, a, b, want.Bal)
+			}
+			if as.IsContract() != want.Ct || as.IsBlocked() != want.Bl {
+				r.viol("ws:state:flags", "%s: account object of %s: contract=%v blocked=%v, spec says %v/%v", at, a, as.IsContract(), as.IsBlocked(), want.Ct, want.Bl)
+			}
+			for _, k := range r.keys {
+				bs, err := as.GetValue(r.w.key(k))
+				if err != nil || r.w.abs(bs) != want.St[k] {
+					key := "ws:state:value"
+					if s.Op == "reset" {
+						key = "ws:reset:state-value"
+					}
+					r.viol(key, "%s: account object of %s: GetValue(%s) = %d (%v), spec says %d", at, a, k, r.w.abs(bs), err, want.St[k])
+				}
+			}
+			if as.IsEmpty() && !want.Empty {
+				r.viol("ws:state:empty", "%s: account object of %s says IsEmpty although the account has contents %+v", at, a, want)
 			}
 		}
 		// every snapshot still shows what it showed when it was taken; its hash is stable and canonical
